@@ -234,6 +234,8 @@ pub enum SAct {
     Msm(u8, u8),
     Precomp3Mul(u8, u8),
     Precomp256Mul(u8, u8),
+    /// batch_normalization of the whole register file (in register order / reversed)
+    BatchNorm(bool),
 }
 pub trait SafeOps: RealCurve {
     fn enc_dec(p: &Self::Proj, compressed: bool) -> Result<Self::Proj, String>;
@@ -321,6 +323,8 @@ where
     }
     fn actions(&self, s: &Self::S, out: &mut Vec<SAct>) {
         let n = s.len() as u8;
+        out.push(SAct::BatchNorm(false));
+        out.push(SAct::BatchNorm(true));
         for i in 0..n {
             for j in 0..n {
                 if i != j {
@@ -352,6 +356,28 @@ where
     fn step(&self, s: &Self::S, a: &SAct) -> Result<Self::S, String> {
         let rr = r();
         let mut regs: Vec<SReg<C>> = s.clone();
+        if let SAct::BatchNorm(rev) = *a {
+            // the register file holds a mix of normalized values (after a round trip through affine form or a decoder),
+            // identities and general representatives: exactly the slices on which the three passes must stay aligned
+            let order: Vec<usize> = if rev { (0..regs.len()).rev().collect() } else { (0..regs.len()).collect() };
+            let mut v: Vec<C::Proj> = order.iter().map(|&i| regs[i].p).collect();
+            C::Proj::batch_normalization(&mut v);
+            for (slot, &i) in order.iter().enumerate() {
+                let p = v[slot];
+                if !C::raw_on_curve(&p) {
+                    return Err(format!("{}: batch_normalization left slot {} of the slice off the curve", C::NAME, slot));
+                }
+                if !p.is_zero() && !p.is_normalized() {
+                    return Err(format!("{}: batch_normalization left slot {} of the slice not normalized", C::NAME, slot));
+                }
+                if C::pt_of(&p) != self.expected(&regs[i].exp) {
+                    return Err(format!("{}: batch_normalization changed the point in slot {} of the slice (not the predicted multiple of the generator any more)", C::NAME, slot));
+                }
+                let e = regs[i].exp.clone();
+                regs[i] = sreg::<C>(p, e);
+            }
+            return Ok(regs);
+        }
         let (idx, newp, newe): (usize, C::Proj, BigUint) = match *a {
             SAct::Add(i, j) => {
                 let mut p = regs[i as usize].p;
@@ -424,6 +450,7 @@ where
             SAct::AffineRoundTrip(i) => (i as usize, regs[i as usize].p.into_affine().into_projective(), regs[i as usize].exp.clone()),
             SAct::EncDec(i, c) => (i as usize, C::enc_dec(&regs[i as usize].p, c)?, regs[i as usize].exp.clone()),
             SAct::SerDe(i, c) => (i as usize, C::ser_de(&regs[i as usize].p, c)?, regs[i as usize].exp.clone()),
+            SAct::BatchNorm(_) => unreachable!(),
             SAct::Msm(i, j) => {
                 let k1 = &self.scalars[1 % self.scalars.len()];
                 let k2 = &self.scalars[2 % self.scalars.len()];
@@ -606,6 +633,6 @@ pub fn run(ctx: &Ctx) -> (&'static str, &'static str) {
     ctx.assume("closure: registers are tracked as known multiples of the generator (exponent arithmetic mod r); equality with the predicted multiple implies subgroup membership because the generator has order r (checked with the reference model)");
     (
         "model_checking",
-        "membership predicate on coordinate pairs from every class (subgroup points, points of each small prime order dividing the cofactor, order l*r, full order, their negatives, off-curve neighbours (y+1, x+1), points of y^2=x^3+b' for five other b' incl. twists, (0,0), identity) against 'on curve and [r]P = O' on big integers; random() under a scripted RNG enumerating all answer sequences with <= 1-2 deviations (x = 0, x without a point, x of a small-order point, x of the generator) within a horizon of 4-8 draws; stateright BFS over a 2-register file of known multiples of the generator under the safe public operations (add, sub, double, negate, mul / affine mul / wNAF mul by {0, r-1, 2^255-1, 2^256-1}, affine round trip, encode->decode and serialize->deserialize in both formats, 2-term multi-scalar multiplication) to depth 2-3 (G1) / 1-2 (G2), each transition compared with the predicted multiple of g; map_to_curve / map2_to_curve outputs incl. map2(u,u); every value accepted by the checked decoders and by the four point deserializers on the C04 byte-string alphabet",
+        "membership predicate on coordinate pairs from every class (subgroup points, points of each small prime order dividing the cofactor, order l*r, full order, their negatives, off-curve neighbours (y+1, x+1), points of y^2=x^3+b' for five other b' incl. twists, (0,0), identity) against 'on curve and [r]P = O' on big integers; random() under a scripted RNG enumerating all answer sequences with <= 1-2 deviations (x = 0, x without a point, x of a small-order point, x of the generator) within a horizon of 4-8 draws; stateright BFS over a 2-register file of known multiples of the generator under the safe public operations (add, sub, double, negate, mul / affine mul / wNAF mul by {0, r-1, 2^255-1, 2^256-1}, affine round trip, encode->decode and serialize->deserialize in both formats, 2-term multi-scalar multiplication, batch_normalization of the register file in both orders) to depth 2-3 (G1) / 1-2 (G2), each transition compared with the predicted multiple of g; map_to_curve / map2_to_curve outputs incl. map2(u,u); every value accepted by the checked decoders and by the four point deserializers on the C04 byte-string alphabet",
     )
 }
